@@ -152,6 +152,14 @@ func (cx *SpecCtx) sortOfVal(v sval) string {
 		return "(Array Int Str)"
 	case "realmap":
 		return "(Array Int Real)"
+	case "strint":
+		return "(Array Str Int)"
+	case "strstr":
+		return "(Array Str Str)"
+	case "strset":
+		return "(Array Str Bool)"
+	case "strany":
+		return "(Array Str Iface)"
 	}
 	if v.typ != nil {
 		return cx.g.sc.sortOf(v.typ)
@@ -603,6 +611,13 @@ func (cx *SpecCtx) evalBinary(x *EBinary) sval {
 		return sval{t: fmt.Sprintf("(%s %s %s)", x.Op, a.t, b.t), kind: "bool"}
 	case "+", "-", "*":
 		a, b = cx.unify(a, b)
+		if x.Op == "+" && a.typ != nil && b.typ != nil && isString(a.typ) && isString(b.typ) {
+			// string concatenation, same term as the code's
+			cx.g.sc.declare("strcat", "(declare-fun strcat (Str Str) Str)")
+			t := fmt.Sprintf("(strcat %s %s)", a.t, b.t)
+			cx.addAxioms([]string{fmt.Sprintf("(= (strlen %s) (+ (strlen %s) (strlen %s)))", t, a.t, b.t)})
+			return sval{t: t, typ: types.Typ[types.String], kind: "val"}
+		}
 		k := "int"
 		if a.kind == "real" {
 			k = "real"
@@ -895,6 +910,22 @@ func (cx *SpecCtx) evalIndex(x *EIndex) sval {
 	if base.kind == "strmap" {
 		return sval{t: fmt.Sprintf("(select %s %s)", base.t, cx.intTerm(x.I)), typ: types.Typ[types.String], kind: "val"}
 	}
+	if base.kind == "strint" || base.kind == "strstr" || base.kind == "strset" || base.kind == "strany" {
+		k := cx.eval(x.I)
+		if k.typ == nil || !isString(k.typ) {
+			cx.fail("index of a string-keyed ghost map must be a string: %s", x.I)
+		}
+		sel := fmt.Sprintf("(select %s %s)", base.t, k.t)
+		switch base.kind {
+		case "strint":
+			return sval{t: sel, kind: "int"}
+		case "strset":
+			return sval{t: sel, kind: "bool"}
+		case "strany":
+			return sval{t: sel, typ: types.NewInterfaceType(nil, nil), kind: "val"}
+		}
+		return sval{t: sel, typ: types.Typ[types.String], kind: "val"}
+	}
 	if base.typ == nil {
 		cx.fail("index on untyped value %s", x.X)
 	}
@@ -978,6 +1009,25 @@ func (cx *SpecCtx) evalCall(x *ECall) sval {
 		t, _ := g.sc.mapLen("Int", d)
 		cx.addAxioms([]string{fmt.Sprintf("(= %s 0)", t)})
 		return sval{t: d, kind: "intset"}
+	case "upd": // upd(m, k, v): the ghost map m with key k set to v
+		m, k, v := arg(0), arg(1), arg(2)
+		switch m.kind {
+		case "intmap", "intset", "realmap", "strmap", "strint", "strstr", "strset", "strany":
+		default:
+			cx.fail("upd on a non-map %s", x.Args[0])
+		}
+		return sval{t: fmt.Sprintf("(store %s %s %s)", m.t, k.t, v.t), kind: m.kind}
+	case "strof": // strof(b): the string holding the bytes of b (what string(b) yields in the code)
+		b := arg(0)
+		if b.typ == nil {
+			cx.fail("strof of untyped value")
+		}
+		sl, ok := b.typ.Underlying().(*types.Slice)
+		if !ok || !isUint8(sl.Elem()) {
+			cx.fail("strof needs a []byte")
+		}
+		g.sc.declare("strofbytes", "(declare-fun strofbytes ((Array Int Int) Int Int) Str)")
+		return sval{t: fmt.Sprintf("(strofbytes (select %s (s-arr %s)) (s-off %s) (s-len %s))", g.get(cx.st, g.sc.elemComp(sl.Elem())), b.t, b.t, b.t), typ: types.Typ[types.String], kind: "val"}
 	case "setadd", "setdel":
 		sv, e := arg(0), arg(1)
 		if sv.kind != "intset" {
@@ -1583,6 +1633,14 @@ func (g *FuncGen) ghostVar(name string) (key string, kind string, ok bool) {
 				srt, kind = "(Array Int Int)", "intmap"
 			case "intset":
 				srt, kind = "(Array Int Bool)", "intset"
+			case "strint": // string-keyed ghost maps (e.g. file state by path)
+				srt, kind = "(Array Str Int)", "strint"
+			case "strstr":
+				srt, kind = "(Array Str Str)", "strstr"
+			case "strset":
+				srt, kind = "(Array Str Bool)", "strset"
+			case "strany": // string -> interface value
+				srt, kind = "(Array Str Iface)", "strany"
 			}
 			if _, have := g.cellSort[key]; !have {
 				g.cellSort[key] = srt
